@@ -316,15 +316,26 @@ def main(pid, run, native=None):
         traceback.print_exc(limit=-8)
         print(f'INCONCLUSIVE: could not set up the run: {type(e).__name__}: {e}')
         return 2
+    # wall-clock budget of the symbolic part: a changed implementation can make the exploration explode; that is an inconclusive
+    # run (exit 2, followed by the native supplement), never an endless one
+    import signal
+    budget = int(os.environ.get('VERIF_BUDGET_S', '900' if a.tier == 'quick' else '14400'))
+
+    def on_alarm(signum, frame):
+        raise Inconclusive(f'time budget of {budget}s for the symbolic part exceeded')
+    signal.signal(signal.SIGALRM, on_alarm)
     try:
         if a.replay:
             from harness import replay as R
             return R.replay(ctx, a.replay)
+        signal.alarm(budget)
         run(ctx)
+        signal.alarm(0)
         if native is not None and (os.environ.get('VERIF_NATIVE_TOO') or a.tier == 'thorough'):
             native(ctx)          # thorough tier: the native supplement always runs as well
         return ctx.finish()
     except Exception as e:           # Unsupported / Inconclusive / PathLimit / DecodeError, and any internal error of the machinery
+        signal.alarm(0)
         traceback.print_exc(limit=-8)
         print(f'INCONCLUSIVE: {type(e).__name__}: {e}')
         ctx.inconclusive.append(f'{type(e).__name__}: {e}')
